@@ -10,4 +10,11 @@ META = {
         'note': PROOF_NOTE + 'sequence length < 2^62; strings observed by code point.',
         'technique': 'Lean 4 proof (induction on the loop, omega) over a transcription of index.go + bounded-exhaustive correspondence',
     },
+    'C10': {
+        'text': 'Theorems for all int64 pairs: + - * unary- are exact when the result fits; // equals Int.fdiv and satisfies the division-free floor characterisation whenever the quotient fits; '
+                '% is a remainder with |r|<|b| and b | a-r; zero divisors raise ZeroDivisionErr; <=> matches the order; ** is exact whenever a^b fits. Model tied to props/int_props.go by '
+                'exhaustive small-square + boundary-lattice + random differential runs (direct built-in calls and parsed source).',
+        'note': PROOF_NOTE + 'float64 arithmetic is a parameter (true division is only compared bit-for-bit in the correspondence); math/big is trusted.',
+        'technique': 'Lean 4 proof (omega, Int.tdiv/fdiv lemmas) over a transcription of int_props.go + exhaustive/boundary correspondence against exact Int',
+    },
 }
